@@ -956,13 +956,35 @@ func decidersOf(p *Prog, in ssa.Instruction) (ds []verbDecider, opaque string) {
 				}
 			}
 		case *ssa.BinOp:
+			// a comparison of what a package function computed from the input: a hand-written matcher
+			var inPkgCall func(v ssa.Value, d int) string
+			inPkgCall = func(v ssa.Value, d int) string {
+				if d > 3 {
+					return ""
+				}
+				switch y := v.(type) {
+				case *ssa.Call:
+					if cal := y.Common().StaticCallee(); cal != nil && p.InPkg(cal) {
+						return cal.Name()
+					}
+				case *ssa.Extract:
+					return inPkgCall(y.Tuple, d+1)
+				case *ssa.BinOp:
+					if n := inPkgCall(y.X, d+1); n != "" {
+						return n
+					}
+					return inPkgCall(y.Y, d+1)
+				case *ssa.UnOp:
+					return inPkgCall(y.X, d+1)
+				}
+				return ""
+			}
+			if n := inPkgCall(x, 0); n != "" {
+				opaque = "a comparison of the result of " + n
+				return false
+			}
 			// loc := re.FindStringIndex(rest); loc != nil
 			if x.Op != token.NEQ && x.Op != token.EQL {
-				if _, isCall := x.X.(*ssa.Call); isCall {
-					if cal := x.X.(*ssa.Call).Common().StaticCallee(); cal != nil && p.InPkg(cal) {
-						opaque = "comparison of the result of " + cal.Name()
-					}
-				}
 				return false
 			}
 			call, isCall := x.X.(*ssa.Call)
@@ -1030,6 +1052,9 @@ func ruleC06VerbatimTags(p *Prog, a *Anchors, r *Report) {
 				name, key = "verbatim", "run:enter-verbatim:tag"
 			}
 			ref := regexp.MustCompile(`^\{%[ \t]*` + name + `[ \t]*%\}`)
+			// a tag that carries a block NAME is outside what the property speaks about (the engine may refuse it, or
+			// implement Django's named verbatim blocks): not compared
+			named := regexp.MustCompile(`^\{%[ \t]*` + name + `[ \t]+[A-Za-z0-9_]+[ \t]*%\}`)
 			ds, opaque := decidersOf(p, in)
 			if opaque != "" {
 				r.Assume(key, p.InstrPos(in), "the switch is (also) decided by %s, not by constant patterns: what it accepts is not evaluated here", opaque)
@@ -1041,6 +1066,9 @@ func ruleC06VerbatimTags(p *Prog, a *Anchors, r *Report) {
 			}
 			bad := ""
 			for _, s := range inputs {
+				if named.MatchString(s) {
+					continue
+				}
 				all, end := true, -1
 				for _, d := range ds {
 					e, ok := d.match(s)
@@ -1120,13 +1148,13 @@ func ruleC06VerbatimTags(p *Prog, a *Anchors, r *Report) {
 						if okW {
 							r.OK(wkey, p.InstrPos(x), "advances by the end of the match")
 						} else {
-							r.Unk(wkey, p.InstrPos(x), "cannot relate the advance %s to what was matched", p.VN(w))
+							r.Assume(wkey, p.InstrPos(x), "the advance %s is not one of the two shapes evaluated here (end of the match, length of the matched constant): not decided", p.VN(w))
 						}
 					}
 				}
 			}
 			if !adv {
-				r.Unk(strings.TrimSuffix(key, ":tag")+":width", p.InstrPos(in), "no advance of the position next to the mode switch")
+				r.Assume(strings.TrimSuffix(key, ":tag")+":width", p.InstrPos(in), "the position is not advanced in the block of the mode switch: the width is not decided")
 			}
 		}
 	}
